@@ -1,0 +1,480 @@
+//go:build verif
+
+// Contracts for the verifier in /verif (comment-only file; compiled only with -tags verif).
+//
+// Property C08 / C02 for the simple TLS extension encoders of u_tls_extensions.go and
+// u_session_ticket.go: Len() is a closed form of the fields, Read(b) either fails with
+// (0, io.ErrShortBuffer) leaving b untouched or returns (Len(), io.EOF) after writing exactly
+// type ++ be16(Len()-4) ++ body into b[0..Len()).
+//
+// Conventions used below
+//   * b[i]*256 + b[i+1] == x % 65536 is "the big-endian uint16 at i is x as the code truncates it".
+//   * `requires zeroed:` clauses record bytes the encoder deliberately does not write because
+//     they must be zero: the encoder relies on a fresh (zeroed) destination buffer.
+//   * `ensures wire:` restates the length prefixes without the modulus under the wire limit of the
+//     type (the "field values within wire limits" of C08); beyond it the encoders marked
+//     "the code does not check" emit the truncated prefix and still return (Len(), io.EOF).
+//   * `requires arr(b) != arr(e.X)`: the destination does not share the field's backing array.
+
+package tls
+
+// ---------------------------------------------------------------------------------------------
+// status_request (5): fixed 9 bytes, the four trailing zero bytes are not written.
+
+//@ func (*StatusRequestExtension).Len
+//@   property C08 C02
+//@   pure
+//@   ensures ret == 9
+
+//@ func (*StatusRequestExtension).Read
+//@   property C08 C02
+//@   requires zeroed: len(b) >= 9 ==> b[5] == 0 && b[6] == 0 && b[7] == 0 && b[8] == 0
+//@   note the two empty uint16-prefixed lists (responder_id_list, request_extensions) are not written; Read relies on a zeroed destination
+//@   modifies b[0..9]
+//@   ensures short: len(b) < 9 ==> ret0 == 0 && ret1 == io.ErrShortBuffer && unchanged(b)
+//@   ensures ok: len(b) >= 9 ==> ret0 == 9 && ret1 == io.EOF
+//@   ensures hdr: len(b) >= 9 ==> b[0] == 0 && b[1] == 5 && b[2]*256+b[3] == 5
+//@   ensures body: len(b) >= 9 ==> b[4] == 1 && b[5]*256+b[6] == 0 && b[7]*256+b[8] == 0
+//@   ensures rest: unchanged(b, 5, len(b))
+
+// ---------------------------------------------------------------------------------------------
+// status_request_v2 (17): fixed 13 bytes, the four trailing zero bytes are not written.
+
+//@ func (*StatusRequestV2Extension).Len
+//@   property C08 C02
+//@   pure
+//@   ensures ret == 13
+
+//@ func (*StatusRequestV2Extension).Read
+//@   property C08 C02
+//@   requires zeroed: len(b) >= 13 ==> b[9] == 0 && b[10] == 0 && b[11] == 0 && b[12] == 0
+//@   note the two empty uint16-prefixed lists of the single OCSPStatusRequest item are not written; Read relies on a zeroed destination
+//@   modifies b[0..13]
+//@   ensures short: len(b) < 13 ==> ret0 == 0 && ret1 == io.ErrShortBuffer && unchanged(b)
+//@   ensures ok: len(b) >= 13 ==> ret0 == 13 && ret1 == io.EOF
+//@   ensures hdr: len(b) >= 13 ==> b[0] == 0 && b[1] == 17 && b[2]*256+b[3] == 9 && b[4]*256+b[5] == 7
+//@   ensures body: len(b) >= 13 ==> b[6] == 2 && b[7]*256+b[8] == 4 && b[9]*256+b[10] == 0 && b[11]*256+b[12] == 0
+//@   ensures rest: unchanged(b, 9, len(b))
+
+// ---------------------------------------------------------------------------------------------
+// signed_certificate_timestamp (18): empty body, the zero length is not written.
+
+//@ func (*SCTExtension).Len
+//@   property C08 C02
+//@   pure
+//@   ensures ret == 4
+
+//@ func (*SCTExtension).Read
+//@   property C08 C02
+//@   requires zeroed: len(b) >= 4 ==> b[2] == 0 && b[3] == 0
+//@   note the zero extension_data length is not written; Read relies on a zeroed destination
+//@   modifies b[0..4]
+//@   ensures short: len(b) < 4 ==> ret0 == 0 && ret1 == io.ErrShortBuffer && unchanged(b)
+//@   ensures ok: len(b) >= 4 ==> ret0 == 4 && ret1 == io.EOF
+//@   ensures hdr: len(b) >= 4 ==> b[0] == 0 && b[1] == 18 && b[2]*256+b[3] == 0
+//@   ensures rest: unchanged(b, 2, len(b))
+
+// ---------------------------------------------------------------------------------------------
+// extended_master_secret (23): empty body, the zero length is not written.
+// (UtlsExtendedMasterSecretExtension is an alias of this type.)
+
+//@ func (*ExtendedMasterSecretExtension).Len
+//@   property C08 C02
+//@   pure
+//@   ensures ret == 4
+
+//@ func (*ExtendedMasterSecretExtension).Read
+//@   property C08 C02
+//@   requires zeroed: len(b) >= 4 ==> b[2] == 0 && b[3] == 0
+//@   note the zero extension_data length is not written; Read relies on a zeroed destination
+//@   modifies b[0..4]
+//@   ensures short: len(b) < 4 ==> ret0 == 0 && ret1 == io.ErrShortBuffer && unchanged(b)
+//@   ensures ok: len(b) >= 4 ==> ret0 == 4 && ret1 == io.EOF
+//@   ensures hdr: len(b) >= 4 ==> b[0] == 0 && b[1] == 23 && b[2]*256+b[3] == 0
+//@   ensures rest: unchanged(b, 2, len(b))
+
+// ---------------------------------------------------------------------------------------------
+// next_protocol_negotiation (13172 = 0x3374): empty body, the zero length is not written.
+
+//@ func (*NPNExtension).Len
+//@   property C08 C02
+//@   pure
+//@   ensures ret == 4
+
+//@ func (*NPNExtension).Read
+//@   property C08 C02
+//@   requires zeroed: len(b) >= 4 ==> b[2] == 0 && b[3] == 0
+//@   note the zero extension_data length is not written; Read relies on a zeroed destination
+//@   modifies b[0..4]
+//@   ensures short: len(b) < 4 ==> ret0 == 0 && ret1 == io.ErrShortBuffer && unchanged(b)
+//@   ensures ok: len(b) >= 4 ==> ret0 == 4 && ret1 == io.EOF
+//@   ensures hdr: len(b) >= 4 ==> b[0]*256+b[1] == extensionNextProtoNeg && b[0] == 0x33 && b[1] == 0x74 && b[2]*256+b[3] == 0
+//@   ensures rest: unchanged(b, 2, len(b))
+
+// ---------------------------------------------------------------------------------------------
+// channel_id (30032 = 0x7550, old id 30031 = 0x754f): empty body, the zero length is not written.
+
+//@ func (*FakeChannelIDExtension).Len
+//@   property C08 C02
+//@   pure
+//@   ensures ret == 4
+
+//@ func (*FakeChannelIDExtension).Read
+//@   property C08 C02
+//@   requires e != nil
+//@   requires zeroed: len(b) >= 4 ==> b[2] == 0 && b[3] == 0
+//@   note the zero extension_data length is not written; Read relies on a zeroed destination
+//@   modifies b[0..4]
+//@   ensures short: len(b) < 4 ==> ret0 == 0 && ret1 == io.ErrShortBuffer && unchanged(b)
+//@   ensures ok: len(b) >= 4 ==> ret0 == 4 && ret1 == io.EOF
+//@   ensures hdr: len(b) >= 4 ==> b[0]*256+b[1] == ite(e.OldExtensionID, 30031, 30032) && b[2]*256+b[3] == 0
+//@   ensures rest: unchanged(b, 2, len(b))
+
+// ---------------------------------------------------------------------------------------------
+// record_size_limit (28): fixed 6 bytes.
+
+//@ func (*FakeRecordSizeLimitExtension).Len
+//@   property C08 C02
+//@   pure
+//@   ensures ret == 6
+
+//@ func (*FakeRecordSizeLimitExtension).Read
+//@   property C08 C02
+//@   requires e != nil
+//@   modifies b[0..6]
+//@   ensures short: len(b) < 6 ==> ret0 == 0 && ret1 == io.ErrShortBuffer && unchanged(b)
+//@   ensures ok: len(b) >= 6 ==> ret0 == 6 && ret1 == io.EOF
+//@   ensures hdr: len(b) >= 6 ==> b[0] == 0 && b[1] == 28 && b[2]*256+b[3] == 2
+//@   ensures body: len(b) >= 6 ==> b[4]*256+b[5] == e.Limit
+
+// ---------------------------------------------------------------------------------------------
+// ec_point_formats (11): type, be16(1+n), byte(n), n format bytes.
+
+//@ func (*SupportedPointsExtension).Len
+//@   property C08 C02
+//@   requires e != nil
+//@   pure
+//@   ensures ret == 5 + len(e.SupportedPoints)
+
+//@ func (*SupportedPointsExtension).Read
+//@   property C08 C02
+//@   let n = len(e.SupportedPoints)
+//@   requires e != nil
+//@   requires arr(b) != arr(e.SupportedPoints)
+//@   modifies b[0..5+n]
+//@   ensures short: len(b) < 5+n ==> ret0 == 0 && ret1 == io.ErrShortBuffer && unchanged(b)
+//@   ensures ok: len(b) >= 5+n ==> ret0 == 5+n && ret1 == io.EOF
+//@   ensures hdr: len(b) >= 5+n ==> b[0] == 0 && b[1] == 11 && b[2]*256+b[3] == (1+n) % 65536 && b[4] == n % 256
+//@   ensures wire: len(b) >= 5+n && n <= 255 ==> b[2]*256+b[3] == 1+n && b[4] == n
+//@   note the one-byte list length is byte(len(SupportedPoints)): it equals n only for n <= 255 (the code does not check)
+//@   ensures body: len(b) >= 5+n ==> forall j in 0..n: b[5+j] == e.SupportedPoints[j]
+//@   loop 0 invariant -1 <= $rangeindex && $rangeindex < n
+//@   loop 0 invariant forall j in 0..$k: b[5+j] == e.SupportedPoints[j]
+//@   loop 0 invariant b[0] == 0 && b[1] == 11 && b[2]*256+b[3] == (1+n) % 65536 && b[4] == n % 256
+
+// ---------------------------------------------------------------------------------------------
+// signature_algorithms (13): type, be16(2+2n), be16(2n), n big-endian schemes.
+
+//@ func (*SignatureAlgorithmsExtension).Len
+//@   property C08 C02
+//@   requires e != nil
+//@   pure
+//@   ensures ret == 6 + 2*len(e.SupportedSignatureAlgorithms)
+
+//@ func (*SignatureAlgorithmsExtension).Read
+//@   property C08 C02
+//@   let n = len(e.SupportedSignatureAlgorithms)
+//@   requires e != nil
+//@   requires arr(b) != arr(e.SupportedSignatureAlgorithms)
+//@   modifies b[0..6+2*n]
+//@   ensures short: len(b) < 6+2*n ==> ret0 == 0 && ret1 == io.ErrShortBuffer && unchanged(b)
+//@   ensures ok: len(b) >= 6+2*n ==> ret0 == 6+2*n && ret1 == io.EOF
+//@   ensures hdr: len(b) >= 6+2*n ==> b[0] == 0 && b[1] == 13 && b[2]*256+b[3] == (2+2*n) % 65536 && b[4]*256+b[5] == (2*n) % 65536
+//@   ensures wire: len(b) >= 6+2*n && n <= 32766 ==> b[2]*256+b[3] == 2+2*n && b[4]*256+b[5] == 2*n
+//@   ensures body: len(b) >= 6+2*n ==> forall j in 0..n: b[6+2*j]*256 + b[7+2*j] == e.SupportedSignatureAlgorithms[j]
+//@   loop 0 invariant -1 <= $rangeindex && $rangeindex < n
+//@   loop 0 invariant forall j in 0..$k: b[6+2*j]*256 + b[7+2*j] == e.SupportedSignatureAlgorithms[j]
+//@   loop 0 invariant b[0] == 0 && b[1] == 13 && b[2]*256+b[3] == (2+2*n) % 65536 && b[4]*256+b[5] == (2*n) % 65536
+
+// ---------------------------------------------------------------------------------------------
+// signature_algorithms_cert (50): same layout as signature_algorithms.
+
+//@ func (*SignatureAlgorithmsCertExtension).Len
+//@   property C08 C02
+//@   requires e != nil
+//@   pure
+//@   ensures ret == 6 + 2*len(e.SupportedSignatureAlgorithms)
+
+//@ func (*SignatureAlgorithmsCertExtension).Read
+//@   property C08 C02
+//@   let n = len(e.SupportedSignatureAlgorithms)
+//@   requires e != nil
+//@   requires arr(b) != arr(e.SupportedSignatureAlgorithms)
+//@   modifies b[0..6+2*n]
+//@   ensures short: len(b) < 6+2*n ==> ret0 == 0 && ret1 == io.ErrShortBuffer && unchanged(b)
+//@   ensures ok: len(b) >= 6+2*n ==> ret0 == 6+2*n && ret1 == io.EOF
+//@   ensures hdr: len(b) >= 6+2*n ==> b[0] == 0 && b[1] == 50 && b[2]*256+b[3] == (2+2*n) % 65536 && b[4]*256+b[5] == (2*n) % 65536
+//@   ensures wire: len(b) >= 6+2*n && n <= 32766 ==> b[2]*256+b[3] == 2+2*n && b[4]*256+b[5] == 2*n
+//@   ensures body: len(b) >= 6+2*n ==> forall j in 0..n: b[6+2*j]*256 + b[7+2*j] == e.SupportedSignatureAlgorithms[j]
+//@   loop 0 invariant -1 <= $rangeindex && $rangeindex < n
+//@   loop 0 invariant forall j in 0..$k: b[6+2*j]*256 + b[7+2*j] == e.SupportedSignatureAlgorithms[j]
+//@   loop 0 invariant b[0] == 0 && b[1] == 50 && b[2]*256+b[3] == (2+2*n) % 65536 && b[4]*256+b[5] == (2*n) % 65536
+
+// ---------------------------------------------------------------------------------------------
+// delegated_credentials (34): same layout as signature_algorithms.
+
+//@ func (*FakeDelegatedCredentialsExtension).Len
+//@   property C08 C02
+//@   requires e != nil
+//@   pure
+//@   ensures ret == 6 + 2*len(e.SupportedSignatureAlgorithms)
+
+//@ func (*FakeDelegatedCredentialsExtension).Read
+//@   property C08 C02
+//@   let n = len(e.SupportedSignatureAlgorithms)
+//@   requires e != nil
+//@   requires arr(b) != arr(e.SupportedSignatureAlgorithms)
+//@   modifies b[0..6+2*n]
+//@   ensures short: len(b) < 6+2*n ==> ret0 == 0 && ret1 == io.ErrShortBuffer && unchanged(b)
+//@   ensures ok: len(b) >= 6+2*n ==> ret0 == 6+2*n && ret1 == io.EOF
+//@   ensures hdr: len(b) >= 6+2*n ==> b[0] == 0 && b[1] == 34 && b[2]*256+b[3] == (2+2*n) % 65536 && b[4]*256+b[5] == (2*n) % 65536
+//@   ensures wire: len(b) >= 6+2*n && n <= 32766 ==> b[2]*256+b[3] == 2+2*n && b[4]*256+b[5] == 2*n
+//@   ensures body: len(b) >= 6+2*n ==> forall j in 0..n: b[6+2*j]*256 + b[7+2*j] == e.SupportedSignatureAlgorithms[j]
+//@   loop 0 invariant -1 <= $rangeindex && $rangeindex < n
+//@   loop 0 invariant forall j in 0..$k: b[6+2*j]*256 + b[7+2*j] == e.SupportedSignatureAlgorithms[j]
+//@   loop 0 invariant b[0] == 0 && b[1] == 34 && b[2]*256+b[3] == (2+2*n) % 65536 && b[4]*256+b[5] == (2*n) % 65536
+
+// ---------------------------------------------------------------------------------------------
+// arbitrary extension: be16(Id), be16(n), n data bytes.
+
+//@ func (*GenericExtension).Len
+//@   property C08 C02
+//@   requires e != nil
+//@   pure
+//@   ensures ret == 4 + len(e.Data)
+
+//@ func (*GenericExtension).Read
+//@   property C08 C02
+//@   let n = len(e.Data)
+//@   requires e != nil
+//@   requires arr(b) != arr(e.Data)
+//@   modifies b[0..4+n]
+//@   ensures short: len(b) < 4+n ==> ret0 == 0 && ret1 == io.ErrShortBuffer && unchanged(b)
+//@   ensures ok: len(b) >= 4+n ==> ret0 == 4+n && ret1 == io.EOF
+//@   ensures hdr: len(b) >= 4+n ==> b[0]*256+b[1] == e.Id && b[2]*256+b[3] == n % 65536
+//@   ensures wire: len(b) >= 4+n && n <= 65535 ==> b[2]*256+b[3] == n
+//@   ensures body: len(b) >= 4+n ==> forall j in 0..n: b[4+j] == e.Data[j]
+
+// ---------------------------------------------------------------------------------------------
+// GREASE extension: be16(Value), be16(n), n body bytes.
+
+//@ func (*UtlsGREASEExtension).Len
+//@   property C08 C02
+//@   requires e != nil
+//@   pure
+//@   ensures ret == 4 + len(e.Body)
+
+//@ func (*UtlsGREASEExtension).Read
+//@   property C08 C02
+//@   let n = len(e.Body)
+//@   requires e != nil
+//@   requires arr(b) != arr(e.Body)
+//@   modifies b[0..4+n]
+//@   ensures short: len(b) < 4+n ==> ret0 == 0 && ret1 == io.ErrShortBuffer && unchanged(b)
+//@   ensures ok: len(b) >= 4+n ==> ret0 == 4+n && ret1 == io.EOF
+//@   ensures hdr: len(b) >= 4+n ==> b[0]*256+b[1] == e.Value && b[2]*256+b[3] == n % 65536
+//@   ensures wire: len(b) >= 4+n && n <= 65535 ==> b[2]*256+b[3] == n
+//@   ensures body: len(b) >= 4+n ==> forall j in 0..n: b[4+j] == e.Body[j]
+
+// ---------------------------------------------------------------------------------------------
+// session_ticket (35): type, be16(n), n ticket bytes.
+
+//@ func (*SessionTicketExtension).Len
+//@   property C08 C02
+//@   requires e != nil
+//@   pure
+//@   ensures ret == 4 + len(e.Ticket)
+
+//@ func (*SessionTicketExtension).Read
+//@   property C08 C02
+//@   let n = len(e.Ticket)
+//@   requires e != nil
+//@   requires arr(b) != arr(e.Ticket)
+//@   modifies b[0..4+n]
+//@   ensures short: len(b) < 4+n ==> ret0 == 0 && ret1 == io.ErrShortBuffer && unchanged(b)
+//@   ensures ok: len(b) >= 4+n ==> ret0 == 4+n && ret1 == io.EOF
+//@   ensures hdr: len(b) >= 4+n ==> b[0] == 0 && b[1] == 35 && b[2]*256+b[3] == n % 65536
+//@   ensures wire: len(b) >= 4+n && n <= 65535 ==> b[2]*256+b[3] == n
+//@   ensures body: len(b) >= 4+n ==> forall j in 0..n: b[4+j] == e.Ticket[j]
+
+// ---------------------------------------------------------------------------------------------
+// cookie (44): type, be16(2+n), be16(n), n cookie bytes.
+
+//@ func (*CookieExtension).Len
+//@   property C08 C02
+//@   requires e != nil
+//@   pure
+//@   ensures ret == 6 + len(e.Cookie)
+
+//@ func (*CookieExtension).Read
+//@   property C08 C02
+//@   let n = len(e.Cookie)
+//@   requires e != nil
+//@   requires arr(b) != arr(e.Cookie)
+//@   modifies b[0..6+n]
+//@   ensures short: len(b) < 6+n ==> ret0 == 0 && ret1 == io.ErrShortBuffer && unchanged(b)
+//@   ensures ok: len(b) >= 6+n ==> ret0 == 6+n && ret1 == io.EOF
+//@   ensures hdr: len(b) >= 6+n ==> b[0] == 0 && b[1] == 44 && b[2]*256+b[3] == (2+n) % 65536 && b[4]*256+b[5] == n % 65536
+//@   ensures wire: len(b) >= 6+n && n <= 65533 ==> b[2]*256+b[3] == 2+n && b[4]*256+b[5] == n
+//@   ensures body: len(b) >= 6+n ==> forall j in 0..n: b[6+j] == e.Cookie[j]
+
+// ---------------------------------------------------------------------------------------------
+// renegotiation_info (0xff01): type, be16(1+n), byte(n), n bytes of renegotiated_connection.
+
+//@ func (*RenegotiationInfoExtension).Len
+//@   property C08 C02
+//@   requires e != nil
+//@   pure
+//@   ensures ret == 5 + len(e.RenegotiatedConnection)
+
+//@ func (*RenegotiationInfoExtension).Read
+//@   property C08 C02
+//@   let n = len(e.RenegotiatedConnection)
+//@   requires e != nil
+//@   requires arr(b) != arr(e.RenegotiatedConnection)
+//@   modifies b[0..5+n]
+//@   ensures short: len(b) < 5+n ==> ret0 == 0 && ret1 == io.ErrShortBuffer && unchanged(b)
+//@   ensures ok: len(b) >= 5+n ==> ret0 == 5+n && ret1 == io.EOF
+//@   ensures hdr: len(b) >= 5+n ==> b[0] == 0xff && b[1] == 0x01 && b[2]*256+b[3] == (1+n) % 65536 && b[4] == n % 256
+//@   ensures wire: len(b) >= 5+n && n <= 255 ==> b[2]*256+b[3] == 1+n && b[4] == n
+//@   note the one-byte length is byte(len(RenegotiatedConnection)): it equals n only for n <= 255 (the code does not check)
+//@   ensures body: len(b) >= 5+n ==> forall j in 0..n: b[5+j] == e.RenegotiatedConnection[j]
+
+// ---------------------------------------------------------------------------------------------
+// token_binding (24): type, be16(3+n), major, minor, byte(n), n key parameters.
+
+//@ func (*FakeTokenBindingExtension).Len
+//@   property C08 C02
+//@   requires e != nil
+//@   pure
+//@   ensures ret == 7 + len(e.KeyParameters)
+
+//@ func (*FakeTokenBindingExtension).Read
+//@   property C08 C02
+//@   let n = len(e.KeyParameters)
+//@   requires e != nil
+//@   requires arr(b) != arr(e.KeyParameters)
+//@   modifies b[0..7+n]
+//@   ensures short: len(b) < 7+n ==> ret0 == 0 && ret1 == io.ErrShortBuffer && unchanged(b)
+//@   ensures ok: len(b) >= 7+n ==> ret0 == 7+n && ret1 == io.EOF
+//@   ensures hdr: len(b) >= 7+n ==> b[0] == 0 && b[1] == 24 && b[2]*256+b[3] == (3+n) % 65536 && b[6] == n % 256
+//@   ensures wire: len(b) >= 7+n && n <= 255 ==> b[2]*256+b[3] == 3+n && b[6] == n
+//@   note the one-byte list length is byte(len(KeyParameters)): it equals n only for n <= 255 (the code does not check)
+//@   ensures body: len(b) >= 7+n ==> b[4] == e.MajorVersion && b[5] == e.MinorVersion && forall j in 0..n: b[7+j] == e.KeyParameters[j]
+
+// ---------------------------------------------------------------------------------------------
+// psk_key_exchange_modes (45): type, be16(1+n), byte(n), n mode bytes; more than 255 modes are
+// rejected (after the length check, before anything is written).
+
+//@ func (*PSKKeyExchangeModesExtension).Len
+//@   property C08 C02
+//@   requires e != nil
+//@   pure
+//@   ensures ret == 5 + len(e.Modes)
+
+//@ func (*PSKKeyExchangeModesExtension).Read
+//@   property C08 C02
+//@   let n = len(e.Modes)
+//@   requires e != nil
+//@   requires arr(b) != arr(e.Modes)
+//@   modifies b[0..5+n]
+//@   ensures short: len(b) < 5+n ==> ret0 == 0 && ret1 == io.ErrShortBuffer && unchanged(b)
+//@   ensures toolong: len(b) >= 5+n && n > 255 ==> ret0 == 0 && ret1 != nil && unchanged(b)
+//@   ensures ok: len(b) >= 5+n && n <= 255 ==> ret0 == 5+n && ret1 == io.EOF
+//@   ensures hdr: len(b) >= 5+n && n <= 255 ==> b[0] == 0 && b[1] == 45 && b[2]*256+b[3] == 1+n && b[4] == n
+//@   ensures body: len(b) >= 5+n && n <= 255 ==> forall j in 0..n: b[5+j] == e.Modes[j]
+
+// ---------------------------------------------------------------------------------------------
+// supported_versions (43): type, be16(1+2n), byte(2n), n big-endian versions; more than 127
+// versions are rejected (after the length check, before anything is written).
+
+//@ func (*SupportedVersionsExtension).Len
+//@   property C08 C02
+//@   requires e != nil
+//@   pure
+//@   ensures ret == 5 + 2*len(e.Versions)
+
+//@ func (*SupportedVersionsExtension).Read
+//@   property C08 C02
+//@   let n = len(e.Versions)
+//@   requires e != nil
+//@   requires arr(b) != arr(e.Versions)
+//@   modifies b[0..5+2*n]
+//@   ensures short: len(b) < 5+2*n ==> ret0 == 0 && ret1 == io.ErrShortBuffer && unchanged(b)
+//@   ensures toolong: len(b) >= 5+2*n && n > 127 ==> ret0 == 0 && ret1 != nil && unchanged(b)
+//@   ensures ok: len(b) >= 5+2*n && n <= 127 ==> ret0 == 5+2*n && ret1 == io.EOF
+//@   ensures hdr: len(b) >= 5+2*n && n <= 127 ==> b[0] == 0 && b[1] == 43 && b[2]*256+b[3] == 1+2*n && b[4] == 2*n
+//@   ensures body: len(b) >= 5+2*n && n <= 127 ==> forall j in 0..n: b[5+2*j]*256 + b[6+2*j] == e.Versions[j]
+//@   loop 0 invariant -1 <= $rangeindex && $rangeindex < n && i == 5 + 2*$k
+//@   loop 0 invariant forall j in 0..$k: b[5+2*j]*256 + b[6+2*j] == e.Versions[j]
+//@   loop 0 invariant b[0] == 0 && b[1] == 43 && b[2]*256+b[3] == 1+2*n && b[4] == 2*n
+
+// ---------------------------------------------------------------------------------------------
+// compress_certificate (27): type, be16(1+2n), byte(2n), n big-endian algorithm ids; more than
+// 127 algorithms are rejected, but only AFTER the two type bytes have been stored.
+
+//@ func (*UtlsCompressCertExtension).Len
+//@   property C08 C02
+//@   requires e != nil
+//@   pure
+//@   ensures ret == 5 + 2*len(e.Algorithms)
+
+//@ func (*UtlsCompressCertExtension).Read
+//@   property C08 C02
+//@   let n = len(e.Algorithms)
+//@   requires e != nil
+//@   requires arr(b) != arr(e.Algorithms)
+//@   modifies b[0..5+2*n]
+//@   ensures short: len(b) < 5+2*n ==> ret0 == 0 && ret1 == io.ErrShortBuffer && unchanged(b)
+//@   ensures toolong: len(b) >= 5+2*n && n > 127 ==> ret0 == 0 && ret1 != nil && b[0] == 0 && b[1] == 27 && unchanged(b, 2, len(b))
+//@   note outside the wire limit (n > 127) Read fails with a non-nil error but has already overwritten b[0..2] with the extension type
+//@   ensures ok: len(b) >= 5+2*n && n <= 127 ==> ret0 == 5+2*n && ret1 == io.EOF
+//@   ensures hdr: len(b) >= 5+2*n && n <= 127 ==> b[0] == 0 && b[1] == 27 && b[2]*256+b[3] == 1+2*n && b[4] == 2*n
+//@   ensures body: len(b) >= 5+2*n && n <= 127 ==> forall j in 0..n: b[5+2*j]*256 + b[6+2*j] == e.Algorithms[j]
+//@   loop 0 invariant -1 <= $rangeindex && $rangeindex < n && i == 5 + 2*$k
+//@   loop 0 invariant forall j in 0..$k: b[5+2*j]*256 + b[6+2*j] == e.Algorithms[j]
+//@   loop 0 invariant b[0] == 0 && b[1] == 27 && b[2]*256+b[3] == 1+2*n && b[4] == 2*n
+
+// ---------------------------------------------------------------------------------------------
+// padding (21): nothing when WillPad is false, else type, be16(PaddingLen), PaddingLen zero bytes
+// which are NOT written.
+
+//@ func (*UtlsPaddingExtension).Len
+//@   property C08 C02
+//@   requires e != nil
+//@   pure
+//@   ensures pad: e.WillPad ==> ret == 4 + e.PaddingLen
+//@   ensures nopad: !e.WillPad ==> ret == 0
+
+//@ func (*UtlsPaddingExtension).Read
+//@   property C08 C02
+//@   let p = e.PaddingLen
+//@   requires e != nil
+//@   requires nonneg: e.WillPad ==> p >= 0
+//@   note nonneg is needed: with WillPad && PaddingLen < 0 the length check passes on buffers shorter than 4 bytes and b[0..3] is indexed out of range
+//@   requires zeroed: e.WillPad && len(b) >= 4 + p ==> forall j in 0..p: b[4+j] == 0
+//@   note the padding body is not written; Read relies on a zeroed destination
+//@   modifies b[0..4+p]
+//@   ensures nopad: !e.WillPad ==> ret0 == 0 && ret1 == io.EOF && unchanged(b)
+//@   ensures short: e.WillPad && len(b) < 4 + p ==> ret0 == 0 && ret1 == io.ErrShortBuffer && unchanged(b)
+//@   ensures ok: e.WillPad && len(b) >= 4 + p ==> ret0 == 4 + p && ret1 == io.EOF
+//@   ensures hdr: e.WillPad && len(b) >= 4 + p ==> b[0] == 0 && b[1] == 21 && b[2]*256+b[3] == p % 65536
+//@   ensures wire: e.WillPad && len(b) >= 4 + p && p <= 65535 ==> b[2]*256+b[3] == p
+//@   ensures body: e.WillPad && len(b) >= 4 + p ==> forall j in 0..p: b[4+j] == 0
+//@   ensures rest: unchanged(b, 4, len(b))
+
+//@ func (*UtlsPaddingExtension).Update
+//@   property C08 C02
+//@   requires e != nil
+//@   note no modifies clause: e.GetPaddingLen is an arbitrary caller-supplied function value, its effects are unknown (govc has no contracts for function values), so callers must treat Update as havocking the heap; only the GetPaddingLen == nil case can be specified
+//@   ensures nofunc: old(e.GetPaddingLen) == nil ==> e.PaddingLen == old(e.PaddingLen) && e.WillPad == old(e.WillPad)
